@@ -10,6 +10,7 @@ These are core date/index conversion functions used throughout scheduling.
 """
 
 from cpython.datetime cimport datetime, timedelta
+from libc.math cimport floor
 
 import cython
 
@@ -42,7 +43,8 @@ cpdef int project_date_to_idx(
     except AttributeError:
         diff_seconds = <double>(date - start)
 
-    idx = <int>(diff_seconds / <double>granularity)
+    # floor, not truncation: a date just before the project start lies in slot -1
+    idx = <int>floor(diff_seconds / <double>granularity)
     return idx
 
 
